@@ -46,3 +46,25 @@ def _(src: Str, dlm: Str, preserve_quotes_and_whitespaces: Bool, allow_external_
     ensures(result_value()[0] == field_stop(src, dlm, cidx, allow_external_whitespaces) + 1, 'next_index')
     ensures(result_value()[1] == field_warn(src, dlm, cidx, allow_external_whitespaces), 'warning_iff_unquoted_field_has_quote')
     modifies(contents(result))
+
+
+@contract('csv_utils.split_quoted_str', name='C11.split', props=['C11', 'C10'], store_policy='none')
+def _(src: Str, dlm: Str, preserve_quotes_and_whitespaces: Bool) -> Tuple[List[Str], Bool]:
+    requires(len(dlm) == 1 and dlm != '"', 'single_char_delimiter')
+    local_types(result=List[Str])
+    loop_types(0, extraction_report=Tuple[Int, Bool])
+    invariant(0, 0 <= cidx and is_fresh(result) and allow_external_whitespaces == (dlm != ' ') and len(src) > 0, 'bounds')
+    invariant(0, contents(result) + split_from(src, dlm, dlm != ' ', preserve_quotes_and_whitespaces, cidx)
+              == split_from(src, dlm, dlm != ' ', preserve_quotes_and_whitespaces, 0), 'fields_so_far')
+    loop_hint(0, split_from(src, dlm, dlm != ' ', preserve_quotes_and_whitespaces, at_iter_start(cidx))
+              == [field_text(src, dlm, at_iter_start(cidx), dlm != ' ', preserve_quotes_and_whitespaces)] + split_from(src, dlm, dlm != ' ', preserve_quotes_and_whitespaces, cidx))
+    loop_hint(0, contents(result) == at_iter_start(contents(result)) + [field_text(src, dlm, at_iter_start(cidx), dlm != ' ', preserve_quotes_and_whitespaces)])
+    invariant(0, (warning or warn_from(src, dlm, dlm != ' ', cidx)) == warn_from(src, dlm, dlm != ' ', 0), 'warning_so_far')
+    # C11: with a quote in the line, the fields are exactly the dialect's fields and the warning is exact
+    ensures(implies('"' in src, contents(result_value()[0]) == split_spec(src, dlm, preserve_quotes_and_whitespaces)), 'fields_follow_the_dialect')
+    ensures(implies('"' in src, result_value()[1] == warn_from(src, dlm, dlm != ' ', 0)), 'warning_iff_unquoted_field_has_quote')
+    # fast path (no quote in the line): plain split, no warning; its agreement with the dialect is the lemma
+    # split_noquote (bounded validation only, see evidence)
+    ensures(implies(not ('"' in src), contents(result_value()[0]) == str_split(src, dlm) and not result_value()[1]), 'fastpath_is_plain_split')
+    ensures(is_fresh(result_value()[0]), 'fresh_list')
+    raises('AssertionError', False, 'delimiter_is_not_a_quote')
